@@ -288,6 +288,7 @@ def run(prog, chk):
     cstring_view_probed(prog, chk, "C06.p")
     replace_searches_whole_rest(prog, chk, "C06.q")
     argument_block_snapshots(prog, chk, "C06.r", fs)
+    mutable_view_exclusive(prog, chk, "C06.s", fs)
 
 
 def formatted_length(prog, chk, fs):
@@ -1011,3 +1012,39 @@ def argument_block_snapshots(prog, chk, rid, fs):
                            "%d detach call(s), %d keeper local(s)" % (len(det), len(keepers)), evals=max(1, len(det)))
     if n == 0:
         raise AnalysisBroken("C06.r: no member takes a pointer from its String argument's block before detach (String::prepend(const String&) expected)")
+
+
+def mutable_view_exclusive(prog, chk, rid, fs):
+    """`(char*)s` hands out a pointer the caller writes through: the block behind it has to belong to this String alone.  "Owned"
+    (ref != 0) is not enough - a block shared with copies has ref >= 2 - so every path to the return passes detach() or the test
+    `ref == 1`."""
+    chk.rule(rid, "MPT: in String::operator char*() every path to the return of the text pointer passes detach(), except over an edge on which "
+                  "`data->ref == 1` is known", floor=1)
+    ops = [f for f in fs if f.short == "operator char *" and not f.d.get("const") and f.blocks]
+    if not ops:
+        raise AnalysisBroken("String::operator char*() not found")
+    for f in ops:
+        det = [c for c in q.calls(f) if (f.nodes[c].get("callee") or "").endswith("String::detach")]
+        cut = set()
+        for b in f.blocks.values():
+            c = b.get("cond")
+            if c is None or len(b["succ"]) != 2 or b.get("tk") == "SwitchStmt" or None in b["succ"]:
+                continue
+            for k in (0, 1):
+                for an, tr in fin.edge_atoms(f, b, b["succ"][k]):
+                    cn = fin._canon(f, an, tr)
+                    if cn[0] != "val" and cn[1] == "==" and set([cn[0], cn[2]]) == {"1", "this->data->ref"}:
+                        cut.add((b["id"], b["succ"][k]))
+        rets = [i for i, n in enumerate(f.nodes) if n["k"] == "ReturnStmt" and n["c"] and f.node_pos(i) is not None]
+        bad = None
+        for r in rets:
+            pth = fin.path_with_cuts(f, f.entry_pos(), f.node_pos(r), avoid=q.pos_of(f, det), cut=cut, after_src=False)
+            if pth is not None:
+                bad = (r, pth)
+        if bad:
+            chk.bad(rid, f, "mutable-view-of-shared-text", f.where(bad[0]),
+                    "operator char*() returns the text pointer on a path (lines %s) that neither detaches nor knows `data->ref == 1`: for a String "
+                    "that shares its block with copies (ref >= 2) the caller writes into all of them" % f.path_lines(bad[1])[:6], evals=len(rets) + len(det))
+        else:
+            chk.ok(rid, f, "the mutable view is handed out only for an exclusively owned block", f.where(rets[0]) if rets else "%s:%s" % (f.file, f.line),
+                   "detach() on every path to the return", evals=len(rets) + len(det))
